@@ -1405,3 +1405,110 @@ func (c *Ctx) rulesR3misc() {
 		c.undecided("C17.full: no NonZeroStates call in the history tracers")
 	}
 }
+
+func (c *Ctx) rulesR3bounds() {
+	c.rule("C20.bounds", "every method of the int-indexed time types (Time) that indexes a time slice with a caller-supplied position — an int parameter, an element of an []int parameter, or the position of a DIFFERENT slice — guards both bounds on the path to the access (>= 0 or != -1, and < len of the indexed slice): Index() gives -1 for an unknown state and a Time captured before SetSchema is shorter than today's indexes")
+	n := 0
+	for _, f := range c.Funcs {
+		if f.Parent() != nil || f.Pkg == nil || relPkg(f.Pkg.Pkg.Path()) != pm {
+			continue
+		}
+		recv := f.Signature.Recv()
+		if recv == nil {
+			continue
+		}
+		if nt := namedOf(recv.Type()); nt == nil || nt.Obj().Name() != "Time" {
+			continue
+		}
+		isTimeParam := func(v ssa.Value) bool {
+			p, ok := v.(*ssa.Parameter)
+			if !ok {
+				return false
+			}
+			nt := namedOf(p.Type())
+			return nt != nil && nt.Obj().Name() == "Time"
+		}
+		k := 0
+		for _, b := range f.Blocks {
+			for _, ins := range b.Instrs {
+				var x, idx ssa.Value
+				switch ia := ins.(type) {
+				case *ssa.IndexAddr:
+					x, idx = ia.X, ia.Index
+				case *ssa.Index:
+					x, idx = ia.X, ia.Index
+				default:
+					continue
+				}
+				if !isTimeParam(x) {
+					continue
+				}
+				// position of a range over the very same slice: safe by construction
+				needLower, needUpper := true, true
+				if bo, ok := idx.(*ssa.BinOp); ok && bo.Op == token.ADD {
+					if ph, ok := bo.X.(*ssa.Phi); ok && ph.Comment == "rangeindex" {
+						needLower = false
+						// which slice does the loop range over? its bound is len(<slice>)
+						for _, g := range guardsOf(b) {
+							cond, _ := stripNot(g.Cond)
+							if cb, ok := cond.(*ssa.BinOp); ok && cb.X == idx {
+								if call, ok := cb.Y.(*ssa.Call); ok {
+									if bi, ok := call.Call.Value.(*ssa.Builtin); ok && bi.Name() == "len" && call.Call.Args[0] == x {
+										needUpper = false
+									}
+								}
+							}
+						}
+					}
+				}
+				if !needLower && !needUpper {
+					continue
+				}
+				k++
+				n++
+				lower, upper := !needLower, !needUpper
+				for _, g := range guardsOf(b) {
+					cond, _ := stripNot(g.Cond)
+					cb, ok := cond.(*ssa.BinOp)
+					if !ok {
+						continue
+					}
+					// len(x) == len(y) established before the loop over y
+					isLenOf := func(v ssa.Value, of ssa.Value) bool {
+						call, ok := v.(*ssa.Call)
+						if !ok {
+							return false
+						}
+						bi, ok := call.Call.Value.(*ssa.Builtin)
+						return ok && bi.Name() == "len" && (of == nil || call.Call.Args[0] == of)
+					}
+					if (cb.Op == token.EQL || cb.Op == token.NEQ) && ((isLenOf(cb.X, x) && isLenOf(cb.Y, nil)) || (isLenOf(cb.Y, x) && isLenOf(cb.X, nil))) {
+						upper = true
+					}
+					other := ssa.Value(nil)
+					if cb.X == idx {
+						other = cb.Y
+					} else if cb.Y == idx {
+						other = cb.X
+					}
+					if other == nil {
+						continue
+					}
+					if kk, isK := constInt(other); isK && (kk == 0 || kk == -1) {
+						lower = true
+					}
+					if call, ok := other.(*ssa.Call); ok {
+						if bi, ok := call.Call.Value.(*ssa.Builtin); ok && bi.Name() == "len" && call.Call.Args[0] == x {
+							upper = true
+						}
+					}
+				}
+				c.check(lower && upper, "C20.bounds", fmt.Sprintf("%s: access%s to %s is bounded on both sides", funcKey(f), nth(k-1), render(x)), ins.Pos(),
+					fmt.Sprintf("index %s: lower bound checked %v, upper bound checked %v", render(idx), lower, upper))
+			}
+		}
+	}
+	if n < 8 {
+		c.undecided(fmt.Sprintf("C20.bounds: only %d caller-indexed accesses found in Time's methods", n))
+	}
+}
